@@ -111,6 +111,16 @@ template <size_t B> nmtools_static_vector<int,B> to_sv(const ivec& v) { nmtools_
 template <typename M> bool has(const M& m) { if constexpr (meta::is_maybe_v<M>) return (bool)nm::has_value(m); else return true; }
 template <typename M> auto get(const M& m) { if constexpr (meta::is_maybe_v<M>) return *m; else return m; }
 
+// first view of the tuple returned by view::broadcast_arrays (possibly inside a maybe)
+template <typename M> auto first(const M& m) {
+    if constexpr (meta::is_maybe_v<M>) {
+        using T = meta::remove_cvref_t<decltype(nm::get<0>(*m))>;
+        using R = nmtools_maybe<T>;
+        if (nm::has_value(m)) return R{nm::get<0>(*m)};
+        else return R{meta::Nothing};
+    } else return nm::get<0>(m);
+}
+
 template <typename V> std::string report(const V& v) {
     if constexpr (meta::is_maybe_v<V>) {
         if (!nm::has_value(v)) return "nothing";
